@@ -63,7 +63,10 @@ ResolveField(f, v) ==
     [] f = "AlphaFiltering" /\ v < 0 -> 1
     [] f = "AlphaQuality" /\ v < 0 -> 100
     [] OTHER -> v
-Resolve(o) == [f \in Fields |-> ResolveField(f, o[f])]
+\* TargetPSNR is documented as used only "when set (and TargetSize is 0)": with a target size it stands for "disabled"
+Resolve(o) ==
+  LET r0 == [f \in Fields |-> ResolveField(f, o[f])]
+  IN IF r0["TargetSize"] > 0 /\ FiniteFloat(r0["TargetPSNR"]) /\ FloatNonNeg(r0["TargetPSNR"]) THEN [r0 EXCEPT !["TargetPSNR"] = 0] ELSE r0
 
 Valid(o) ==
   LET r == Resolve(o) IN
